@@ -79,12 +79,82 @@ def evaluate(paths, point):
 
 # ---------------------------------------------------------------------- direct evaluation on an abstract point
 
+def _fold(d):
+    """Constant conditions left behind by phi resolution."""
+    if d[0] == "discr" and d[1][0] == "const" and isinstance(d[1][1], (int, bool)):
+        return ("const", int(d[1][1]), "isize")
+    if d[0] == "bin" and d[2][0] == "const" and d[3][0] == "const" and isinstance(d[2][1], (int, bool)) and isinstance(d[3][1], (int, bool)):
+        a, b = int(d[2][1]), int(d[3][1])
+        r = {"Eq": a == b, "Ne": a != b, "Lt": a < b, "Le": a <= b, "Gt": a > b, "Ge": a >= b}.get(d[1])
+        if r is not None:
+            return ("const", int(r), "bool")
+    if d[0] == "un" and d[1] == "Not" and d[2][0] == "const" and d[2][2] == "bool":
+        return ("const", int(not d[2][1]), "bool")
+    return d
+
+
 def eval_point(tree, point, recognise, classify):
     """Set of classified results the function can return on an abstract input point. Switches whose
     condition is recognised are decided by the point; `("ignore",)` conditions are explored both ways
     (memoised: the continuation of an ignored switch is evaluated once); unrecognised conditions make the
     result contain ("?", text)."""
     memo = {}
+    # A switch's choice matters later only while some expression still to be evaluated contains a phi that refers to it.
+    # refs(seq, i) = ids of the switches that the decisions and classified results in seq[i:] depend on through phis.
+    _expr_refs = {}
+    _suffix = {}
+
+    def expr_refs(e):
+        k = id(e)
+        if k in _expr_refs:
+            return _expr_refs[k]
+        out = set()
+        stack = [e]
+        seen = set()
+        while stack:
+            x = stack.pop()
+            if not isinstance(x, tuple) or not x or id(x) in seen:
+                continue
+            seen.add(id(x))
+            if x[0] == "phi":
+                out.add(x[1])
+            if x[0] == "call" and isinstance(x[1], str) and x[1].startswith("owlchess"):
+                continue        # a predicate of the library is recognised by its name; what its arguments were built from is not read
+            for y in x:
+                if isinstance(y, tuple):
+                    stack.append(y)
+        _expr_refs[k] = out
+        return out
+
+    def ret_refs(e):
+        # classification looks at which variant is returned and at the payload of an error only
+        if not isinstance(e, tuple) or not e:
+            return set()
+        if e[0] == "phi":
+            out = {e[1]}
+            for _lab, v in e[3]:
+                out |= ret_refs(v)
+            return out
+        if e[0] == "agg" and e[2] == "Ok":
+            return set()
+        return expr_refs(e)
+
+    def suffix_refs(seq, i):
+        key = (id(seq), i)
+        if key in _suffix:
+            return _suffix[key]
+        out = set()
+        for n in seq[i:]:
+            if n[0] == "switch":
+                out |= expr_refs(n[1])
+                for sub in n[2].values():
+                    out |= suffix_refs(sub, 0)
+            elif n[0] == "inlined":
+                out |= suffix_refs(n[3], 0)
+            elif n[0] == "ret":
+                out |= ret_refs(n[1])
+        _suffix[key] = out
+        return out
 
     def decide(d, n):
         rec = recognise(d)
@@ -115,6 +185,11 @@ def eval_point(tree, point, recognise, classify):
 
     def run(seq, i, cont, depth, choices=()):
         # choices: labels taken at the synthetic switches of modelled combinators (their results are phi nodes)
+        if choices:
+            live = set(suffix_refs(seq, i))
+            for c in cont:
+                live |= suffix_refs(c[0], c[1])
+            choices = tuple(c for c in choices if c[0] in live)
         key = (id(seq), i, tuple((id(c[0]), c[1]) for c in cont), choices)
         if key in memo:
             return memo[key]
@@ -131,7 +206,7 @@ def eval_point(tree, point, recognise, classify):
             k = n[0]
             if k == "switch":
                 ch = dict(choices)
-                d = unstamp(path_value(n[1], ch) if ch else n[1])
+                d = _fold(unstamp(path_value(n[1], ch) if ch else n[1]))
                 if d[0] == "const" and isinstance(d[1], (int, bool)):
                     v = int(d[1])
                     lab = "else" if "else" in n[2] else "infeasible"
@@ -147,7 +222,7 @@ def eval_point(tree, point, recognise, classify):
                 if lab == "infeasible":
                     break
                 labs = [lab] if lab is not None else list(n[2].keys())
-                synthetic = len(n[5]) > 4 and n[5][4] == "comb"
+                synthetic = len(n[5]) > 4    # combinator switches and the switches of unrolled array loops: a later phi may read them
                 for l in labs:
                     ch2 = tuple(sorted(list(dict(choices).items()) + [(n[5], l)], key=repr)) if synthetic else choices
                     out |= run(n[2][l], 0, ((seq, i + 1, depth),) + cont, depth, ch2)
